@@ -506,6 +506,11 @@ func (ex *Exec) globalVal(st *State, g *ssa.Global) Term {
 	et := g.Type().(*types.Pointer).Elem()
 	v := ex.freshOfType(st, "g_"+g.Name(), et)
 	st.globals[key] = v
+	if cl := ex.w.globalInvs[shortName(g.String())]; cl != nil {
+		c := &SpecCtx{ex: ex, st: st, old: st, binds: map[string]TT{"self": {T: v, Ty: et}}, bound: map[string]string{}, clause: cl, pkg: g.Pkg.Pkg}
+		st.assume(ex.safeFormula(c, cl.Text))
+		ex.d.trust("global invariant of " + shortName(g.String()) + " (established by package initialisation, never written afterwards)")
+	}
 	return v
 }
 
@@ -733,6 +738,16 @@ func (ex *Exec) step(st *State, in ssa.Instruction) {
 	switch in := in.(type) {
 	case *ssa.Alloc:
 		et := in.Type().(*types.Pointer).Elem()
+		if at, ok := types.Unalias(et).Underlying().(*types.Array); ok {
+			// arrays (varargs temporaries) live in the slice heap at a fresh base
+			es := ex.w.sortOf(at.Elem(), ex.d)
+			base := ex.newRef(st, "arr")
+			name, h := ex.slcHeap(st, es)
+			as := arraySort(SInt, es)
+			ex.setHeap(st, name, sto(h, base, mk(as, fmt.Sprintf("((as const %s) %s)", as, ex.zero(at.Elem()).S))))
+			fr.env[in] = &PtrV{Base: base, Root: et}
+			return
+		}
 		if ex.isCellAlloc(in) {
 			fr.cells[in] = ex.zero(et)
 			fr.env[in] = &PtrV{Cell: in, CellFr: fr.depth, Root: et}
@@ -784,6 +799,15 @@ func (ex *Exec) step(st *State, in ssa.Instruction) {
 			s := ex.term(st, ex.val(st, in.X))
 			ex.oblige(st, "bounds", "", in, and(le(intLit(0), idx), lt(idx, slcLen(s))), "slice index in range")
 			fr.env[in] = &PtrV{IsElem: true, Slc: s, Idx: idx, Root: t.Elem()}
+		case *types.Pointer:
+			at, ok := types.Unalias(t.Elem()).Underlying().(*types.Array)
+			p, isP := ex.val(st, in.X).(*PtrV)
+			if !ok || !isP || p.Cell != nil || len(p.Path) > 0 || p.IsElem {
+				ex.unsupportedf("IndexAddr on %s", in.X.Type())
+			}
+			n := intLit(at.Len())
+			ex.oblige(st, "bounds", "", in, and(le(intLit(0), idx), lt(idx, n)), "array index in range")
+			fr.env[in] = &PtrV{IsElem: true, Slc: mkSlc(p.Base, intLit(0), n, n), Idx: idx, Root: at.Elem()}
 		default:
 			ex.unsupportedf("IndexAddr on %s", in.X.Type())
 		}
